@@ -358,15 +358,22 @@ def weave(unit, repo=None, variant=None):
         _c0, ce = fn_span(cur, cs)
         if ce is None:
             continue
-        cur_ids = set(x for l in cur[cs:ce + 1] for x in ident.findall(l))
-        base_ids = set(x for l in base[span[0]:span[1] + 1] for x in ident.findall(l))
+        # names in field / method position (`x.name`) are not variables: a renamed local `offset` is gone from the function even
+        # when a field `.offset` is still assigned, and the substitution leaves such positions alone
+        var_ident = re.compile(r"(?<![\w.])[A-Za-z_][A-Za-z0-9_]*")
+        cur_ids = set(x for l in cur[cs:ce + 1] for x in var_ident.findall(l))
+        base_ids = set(x for l in base[span[0]:span[1] + 1] for x in var_ident.findall(l))
         a0, a1 = pos_of[span[0]], pos_of[span[1]]
-        spec_ids = set(x for z in range(a0, a1 + 1) if tags[z] is None for x in ident.findall(annotated[z]))
-        if any(o in cur_ids for o in m) or any(nw in base_ids or nw in spec_ids for nw in m.values()):
+        spec_ids = set(x for z in range(a0, a1 + 1) if tags[z] is None for x in var_ident.findall(annotated[z]))
+        # per name: the old name must be gone from the function's variables and the new one must be new to it (a name that is still in
+        # use elsewhere in the function is left alone; specification lines that meant the renamed occurrence then fail to resolve:
+        # undecided)
+        m = {o: nw for o, nw in m.items() if o not in cur_ids and nw not in base_ids and nw not in spec_ids}
+        if not m:
             continue
         for z in range(a0, a1 + 1):
             if tags[z] is None:
-                annotated[z] = ident.sub(lambda mo: m.get(mo.group(0), mo.group(0)), annotated[z])
+                annotated[z] = var_ident.sub(lambda mo: m.get(mo.group(0), mo.group(0)), annotated[z])
         applied_renames[enclosing_fn(base, span[0]) or "?"] = dict(m)
     out = []
     origin = []  # per output line: ('code', base index or None) / ('spec', annotated index)
